@@ -284,7 +284,7 @@ _reg("C13", c13.run, translator=("T1", "T2", "T11"), module="NirVerif.Properties
 _reg("C14", c14.run, translator=("T1", "T4", "T5"), module="NirVerif.Properties.C14File",
      theorems=["NirVerif.C14.commute", "NirVerif.C14.commute_keyed", "NirVerif.C14.inferred_is_stable",
                "NirVerif.C14.inferableK_perm", "NirVerif.C14.dict_roundtrip_commutes", "NirVerif.C14.file_roundtrip_commutes",
-               "NirVerif.C14.check_file_roundtrip"],
+               "NirVerif.C14.check_file_roundtrip", "NirVerif.C14.infer_perm", "NirVerif.C14.file_roundtrip_infer_any"],
      rule="Consistent graphs (C08 domain, plus grouped convolutions for the commutation clause) under 8 (thorough 32) "
           "operation histories of length 1-4 over {infer_types, write+read, to_dict+from_dict}: after every round trip of an "
           "inferred graph the carried annotations must be regained, and one more infer_types must give the ground-truth types.",
@@ -298,7 +298,11 @@ _reg("C14", c14.run, translator=("T1", "T4", "T5"), module="NirVerif.Properties.
                 "whose leaves the dictionary form reproduces (dict_roundtrip_commutes, no consistency hypothesis), and for a "
                 "flat graph of file-exact nodes consistent with tau whatever read(write(g)) returns is again consistent with "
                 "tau - the node dictionary comes back permuted by name, which inference does not see (inferableK_perm) - so "
-                "inferring it gives tau on every node and passes the type check (file_roundtrip_commutes). That the real "
+                "inferring it gives tau on every node and passes the type check (file_roundtrip_commutes). Without any "
+                "consistency hypothesis: inference sees the node dictionary through look-ups only (relational induction over "
+                "the work-list, infer_perm), so on EVERY flat file-exact graph read(write(g)) infers with the same error as g "
+                "and every name ends up holding the same node (file_roundtrip_infer_any), and the type check gives it the "
+                "same verdict (check_file_roundtrip). That the real "
                 "read / from_dict behave like the model's is the correspondence run on sampled histories.",
      level_note="Lean kernel; hand-written models of to_dict/from_dict/write/read and of the h5py contract (create_dataset conversions, item[()], link names, iteration order), validated against the real library and real files on every run.")
 _reg("C15", c15.run, translator=("T1", "T3", "T16"), module="NirVerif.Properties.C15Generated",
